@@ -154,19 +154,31 @@ impl ISecureFramer for LengthPrefixedFramer {
 
   fn write_msg_multipart(&mut self, msgs: FrameBatch) -> Result<Bytes, ZmqError> {
     let plaintext = self.framer.frame_contiguous(&[msgs])?;
-    let ciphertext = self.cipher.encrypt(&plaintext)?;
-    let mut out = BytesMut::with_capacity(2 + ciphertext.len());
-    out.put_u16(ciphertext.len() as u16);
-    out.extend_from_slice(&ciphertext);
-    Ok(out.freeze())
+    self.seal_records(&plaintext)
   }
 
   fn write_msg_batch(&mut self, batch: &[FrameBatch]) -> Result<Bytes, ZmqError> {
     let plaintext = self.framer.frame_contiguous(batch)?;
-    let ciphertext = self.cipher.encrypt(&plaintext)?;
-    let mut out = BytesMut::with_capacity(2 + ciphertext.len());
-    out.put_u16(ciphertext.len() as u16);
-    out.extend_from_slice(&ciphertext);
+    self.seal_records(&plaintext)
+  }
+}
+
+impl LengthPrefixedFramer {
+  /// Largest plaintext that fits one record: the 16-bit length prefix covers the ciphertext,
+  /// which carries a 16-byte authentication tag.
+  const MAX_RECORD_PLAINTEXT: usize = u16::MAX as usize - 16;
+
+  /// Encrypts `plaintext` as one or more length-prefixed records. The reader concatenates the
+  /// decrypted records before parsing frames, so splitting is transparent to the peer.
+  fn seal_records(&mut self, plaintext: &[u8]) -> Result<Bytes, ZmqError> {
+    let records = plaintext.len() / Self::MAX_RECORD_PLAINTEXT + 1;
+    let mut out = BytesMut::with_capacity(plaintext.len() + records * 18);
+    for chunk in plaintext.chunks(Self::MAX_RECORD_PLAINTEXT) {
+      let ciphertext = self.cipher.encrypt(chunk)?;
+      debug_assert!(ciphertext.len() <= u16::MAX as usize);
+      out.put_u16(ciphertext.len() as u16);
+      out.extend_from_slice(&ciphertext);
+    }
     Ok(out.freeze())
   }
 }
